@@ -37,7 +37,12 @@ pub struct Profile {
     /// percent of numeric parameters drawn from {65536, 99999999999, ...}
     pub huge_pct: usize,
     pub limits: &'static [Option<usize>],
+    /// percent of histories that start on a "ladder" size around powers of two (31..129 columns /
+    /// rows): implementations with word-sized bit sets or chunked rows change behaviour there
+    pub big_pct: usize,
 }
+
+pub const LADDER: &[usize] = &[31, 32, 33, 63, 64, 65, 127, 128, 129];
 
 pub const LIMITS_ALL: &[Option<usize>] =
     &[None, None, None, Some(0), Some(1), Some(2), Some(9), Some(10), Some(11), Some(25), Some(100), Some(1000)];
@@ -68,7 +73,7 @@ impl Profile {
         w[T_RESET] = 1;
         w[T_RIS] = 0;
         w[T_SOUP] = 0;
-        Profile { w, resize_pct: 6, max_cols: 12, max_rows: 7, calls: (1, 8), tokens: (1, 7), huge_pct: 0, limits: LIMITS_ALL }
+        Profile { w, resize_pct: 6, max_cols: 12, max_rows: 7, calls: (1, 8), tokens: (1, 7), huge_pct: 0, limits: LIMITS_ALL, big_pct: 6 }
     }
     pub fn with(mut self, t: usize, w: u32) -> Profile {
         self.w[t] = w;
@@ -96,6 +101,10 @@ impl Profile {
     pub fn length(mut self, calls: (usize, usize), tokens: (usize, usize)) -> Profile {
         self.calls = calls;
         self.tokens = tokens;
+        self
+    }
+    pub fn big(mut self, pct: usize) -> Profile {
+        self.big_pct = pct;
         self
     }
     pub fn huge(mut self, pct: usize) -> Profile {
@@ -601,14 +610,31 @@ pub fn pick_size(r: &mut Rng, max_cols: usize, max_rows: usize) -> (usize, usize
 
 /// G1: a grammar-aware history
 pub fn history(r: &mut Rng, p: &Profile) -> History {
-    let (cols, rows) = pick_size(r, p.max_cols, p.max_rows);
+    let (mut cols, mut rows) = pick_size(r, p.max_cols, p.max_rows);
+    if r.chance(p.big_pct, 100) {
+        match r.below(3) {
+            0 => rows = *r.pick(LADDER),
+            1 => cols = *r.pick(LADDER),
+            _ => {
+                rows = *r.pick(LADDER);
+                cols = *r.pick(LADDER);
+            }
+        }
+    }
     let limit = *r.pick(p.limits);
     let mut h = History::new(cols, rows, limit);
     let (mut cc, mut cr) = (cols, rows);
     let ncalls = r.range(p.calls.0, p.calls.1);
     for _ in 0..ncalls {
         if r.chance(p.resize_pct, 100) {
-            let (c, rw) = pick_size(r, p.max_cols, p.max_rows);
+            let (mut c, mut rw) = pick_size(r, p.max_cols, p.max_rows);
+            if r.chance(p.big_pct, 100) {
+                if r.chance(1, 2) {
+                    rw = *r.pick(LADDER);
+                } else {
+                    c = *r.pick(LADDER);
+                }
+            }
             // also width-only and height-only changes
             let (c, rw) = match r.below(4) {
                 0 => (c, cr),
